@@ -28,11 +28,20 @@ def build_runner(repo, build):
     lock = os.path.join(repo, "Cargo.lock")
     if os.path.exists(lock):
         shutil.copy(lock, os.path.join(d, "Cargo.lock"))
-    env = dict(os.environ, CARGO_NET_OFFLINE="true", CARGO_TARGET_DIR=os.path.join(build, "symexec-target-" + tag), RUSTFLAGS="--cfg ndarray_interp_verif -Awarnings")
-    p = subprocess.run(["cargo", "build", "--release", "--offline"], cwd=d, env=env, capture_output=True, text=True)
-    if p.returncode != 0:
-        return None, p.stderr[-3000:]
-    return os.path.join(build, "symexec-target-" + tag, "release", "symexec"), None
+    # one shared target directory (dependencies are compiled once); the build is serialised by a lock and the
+    # finished binary is copied aside, so concurrent checks of different trees cannot pick up each other's binary
+    import fcntl
+    tdir = os.path.join(build, "symexec-target")
+    os.makedirs(tdir, exist_ok=True)
+    env = dict(os.environ, CARGO_NET_OFFLINE="true", CARGO_TARGET_DIR=tdir, RUSTFLAGS="--cfg ndarray_interp_verif -Awarnings")
+    with open(os.path.join(build, "symexec.lock"), "w") as lk:
+        fcntl.flock(lk, fcntl.LOCK_EX)
+        p = subprocess.run(["cargo", "build", "--release", "--offline"], cwd=d, env=env, capture_output=True, text=True)
+        if p.returncode != 0:
+            return None, p.stderr[-3000:]
+        out = os.path.join(d, "symexec-bin")
+        shutil.copy(os.path.join(tdir, "release", "symexec"), out)
+    return out, None
 
 
 def spline_scenarios(tier, what):
@@ -57,6 +66,10 @@ def spline_scenarios(tier, what):
             out.append("spline n=%d lanes=1 bc=NotAKnot extrap=1 seed=3" % n)
             out.append("spline n=%d lanes=3x2 bc=%s extrap=1 seed=4 dyn=1" % (n, indiv))
             out.append("spline n=%d lanes=2 bc=Periodic extrap=1 seed=5" % n)
+            out.append("spline n=%d lanes=3 bc=Individual=Mixed:FirstDeriv:SecondDeriv|Mixed:FirstDeriv:SecondDeriv|Mixed:NotAKnot:FirstDeriv extrap=1 seed=2" % n)
+            out.append("spline n=%d lanes=2x2 bc=Individual=Mixed:SecondDeriv:FirstDeriv|Mixed:Clamped:NotAKnot|Mixed:FirstDeriv:FirstDeriv|Mixed:Natural:SecondDeriv extrap=0 seed=3" % n)
+            out.append("spline n=%d lanes=2 bc=Individual=Clamped|Clamped extrap=1 seed=1" % n)
+            out.append("spline n=%d lanes=2 bc=Individual=Natural|Natural extrap=0 seed=4" % n)
             out.append("spline n=%d lanes=2 bc=Natural extrap=1 seed=6 layout=f" % n)
     if what == "periodic":
         for n in ns + ([8] if tier == "thorough" else []):
@@ -96,7 +109,15 @@ def entry_scenarios(tier, what):
             for lanes in ("2", "2x2", "1", "3x2", "1x3"):
                 for st in ("linear", "spline", "bilinear"):
                     out.append("lanes n=%d lanes=%s strat=%s" % (n, lanes, st))
+                if lanes in ("2", "2x2", "3x2"):
+                    out.append("lanes n=%d lanes=%s strat=spline bcset=mixed" % (n, lanes))
+                    out.append("lanes n=%d lanes=%s strat=spline bcset=samekind" % (n, lanes))
         out += ["lanes n=3 lanes=0 strat=linear", "lanes n=4 lanes=2x0 strat=linear"]
+    if what == "layouts":
+        for n in ([5, 6] if tier == "quick" else [4, 5, 6, 8]):
+            for lanes in ("", "3", "2x3", "2x3x2"):
+                for st in ("linear", "spline", "bilinear"):
+                    out.append("layouts n=%d lanes=%s strat=%s" % (n, lanes, st))
     return out
 
 
